@@ -44,3 +44,7 @@ run H23_memoise_int_function paranoid_crypto/lib/util.py 's=s.replace("import as
 run H24_pollard_check_unpack paranoid_crypto/lib/rsa_single_checks.py 's=s.replace("      weak, factors = rsa_util.Pollardpm1(n, self._m)\n","      verdict = rsa_util.Pollardpm1(n, self._m)\n      weak, factors = verdict\n")' C05
 run H25_fermat_init_order paranoid_crypto/lib/rsa_single_checks.py 's=s.replace("    super().__init__(paranoid_pb2.SeverityType.SEVERITY_CRITICAL)\n    self._max_steps = max_steps\n","    self._max_steps = max_steps\n    super().__init__(paranoid_pb2.SeverityType.SEVERITY_CRITICAL)\n")' C04
 run H26_exponents_fstring_small paranoid_crypto/lib/rsa_single_checks.py 's=s.replace("            \"Exponent check failed! Exponent: %d\\n%s\", e, key.rsa_info\n","            f\"Exponent check failed! Exponent bits: {e.bit_length() % 100000}\\n%s\", key.rsa_info\n")' C18
+run H27_longest_runs_clamp paranoid_crypto/lib/randomness_tests/nist_suite.py 's=s.replace("    idx = max(0, min(v_upper, x) - v_lower)\n","    idx = min(v_upper, x) - v_lower\n    if idx < 0:\n      idx = 0\n")' C12
+run H28_rank_class_temp paranoid_crypto/lib/randomness_tests/nist_suite.py 's=s.replace("    v[min(k, r - rank)] += 1\n","    cls = min(k, r - rank)\n    v[cls] += 1\n")' C12
+run H29_bias_fold_if paranoid_crypto/lib/randomness_tests/lattice_suite.py 's=s.replace("      v = min(v, n - v)\n","      if n - v < v:\n        v = n - v\n")' C19
+run H30_universal_block_temp paranoid_crypto/lib/randomness_tests/nist_suite.py 's=s.replace("    sumb += math.log(j - tab[b], 2)\n","    dist = j - tab[b]\n    sumb += math.log(dist, 2)\n")' C12
